@@ -260,6 +260,7 @@ type c27acc struct {
 	firstW  interface{}
 	known   int
 	firstKn string
+	firstKW interface{}
 }
 
 // verdict: ideal equal -> ok; trigger and as-is equal -> known; else violation.
@@ -276,6 +277,11 @@ func (a *c27acc) verdict(path string, ds []*c27dataset, ideal, asis map[string]c
 				a.known++
 				if a.firstKn == "" {
 					a.firstKn = fmt.Sprintf("path %s: %s", path, d)
+					var w []interface{}
+					for _, x := range ds {
+						w = append(w, x.describe())
+					}
+					a.firstKW = map[string]interface{}{"path": path, "map_in_case": a.mapNo, "datasets": w, "difference": d}
 				}
 				return
 			}
@@ -546,7 +552,7 @@ func c27mapsPerCase(tier string) int {
 
 func c27cases(tier string) int {
 	if tier == "thorough" {
-		return 1600 // 400 000 maps
+		return 1200 // 300 000 maps
 	}
 	return 100 // 5 000 maps
 }
@@ -571,7 +577,7 @@ func c27run(c *runner.Ctx) runner.Result {
 	}
 	if a.known > 0 {
 		res.Count("zero_length_losses", int64(a.known))
-		res.Known("F-WIREZERO", fmt.Sprintf("%d round trips lost a zero-length bucket or its column names/types; first: %s", a.known, a.firstKn), nil)
+		res.Known("F-WIREZERO", fmt.Sprintf("%d round trips lost a zero-length bucket or its column names/types; first: %s", a.known, a.firstKn), a.firstKW)
 	}
 	return res
 }
@@ -582,7 +588,7 @@ func init() {
 		Level: "exploration",
 		Rule: "a map = 1-2 datasets, each a schema of 1-8 columns over the 11 wire types (i1 i2 i4 i8 u1 u2 u4 u8 f4 f8 U16, unicode names, Epoch first in 3 of 4) and 1-5 buckets of 0-200 rows of boundary/random bit patterns; 70% of the datasets have no zero-length bucket, 20% mix empty and non-empty buckets, 10% are entirely empty; " +
 			"each map goes through four paths: S single NumpyDataset, P NumpyMultiDataset (Append in a seeded bucket order) with msgpack Marshal/Unmarshal, W the write request through msgpack2 client encoding and the server codec's ReadRequest, Q the query response through the server codec's WriteResponse and the client's DecodeClientResponse + MultiQueryResponse.ToColumnSeriesMap; " +
-			"quick 100 cases x 50 maps, thorough 1600 x 250; a dataset is non-trivial when it has at least one column, distinct by (columns, buckets, zero pattern, max rows class, has U16, datasets in the map)",
+			"quick 100 cases x 50 maps, thorough 1200 x 250; a dataset is non-trivial when it has at least one column, distinct by (columns, buckets, zero pattern, max rows class, has U16, datasets in the map)",
 		Assumptions: []string{
 			"all buckets of one dataset share the schema (the multi-dataset format requires it; Append only checks the names)",
 			"symbols contain no '/', ':' or ','; column names are unique within a series and non-empty",
